@@ -58,7 +58,13 @@ def veq(ctx, a, b, need_init=True):
         body = veq(ctx, ea, eb)
         if need_init:
             ia = A.init(sk)
-            body = zand(body, ia)
+            if getattr(Bn, "_init", None) is not None:
+                # the expected array is itself only partly initialised (a template of an array being filled): same cells
+                # initialised, equal values there
+                ib = Bn.init(sk)
+                body = zand(to_z3(ia) == to_z3(ib), z3.Implies(to_z3(ib), to_z3(body)))
+            else:
+                body = zand(body, ia)
         return zand(sh, z3.Implies(_bounds(sk, Bn.shape), to_z3(body)) if sk else body)
     if isinstance(a, (SymSeq, list, tuple)) and isinstance(b, (SymSeq, list, tuple)):
         if not isinstance(a, SymSeq):
